@@ -48,6 +48,10 @@ def session(rng, nops):
             ops.append("a flush_rx")
         elif x < 0.61:
             ops.append("a flush_tx")
+        elif x < 0.64:
+            # the CE pin driven by the application ("advanced usage": starts what write(write_only=True) queued, stops /
+            # resumes listening) and the received-power detector
+            ops.append(rng.choice(["a set ce_pin T", "a set ce_pin F", "a get ce_pin", "a get rpd", "b get rpd"]))
         elif x < 0.7:
             ops.append("a read N")
         else:
